@@ -3465,7 +3465,7 @@ class Constructs(mixin.Container, core.Constructs):
                 return out
 
         for key in self:
-            out._pop(key)
+            out._pop(key, None)
 
         out._filters_applied = self.filters_applied() + (
             {"inverse_filter": ()},
